@@ -168,7 +168,9 @@ def tell(msg: str) -> None:
 
     if df == 20:
         _print("Protocol", "Mode-S Comm-B altitude reply")
-        _print("Altitude", common.altcode(msg), "feet")
+        alt = common.altcode(msg)
+        # c_common reports an unknown / invalid altitude as -999999 / -1
+        _print("Altitude", None if alt in (-999999, -1) else alt, "feet")
 
     if df == 21:
         _print("Protocol", "Mode-S Comm-B identity reply")
